@@ -964,10 +964,11 @@ theorem sget_runDispatch (s : Store) (calls : List (List Period × Vec)) (q : Pe
 /-! ### `Holder.set_input` unfolded -/
 
 theorem setInput_divide_inv {var : VarSpec} {s t : Store} {p : Period} {v : Vec} (hr : var.rule = .divide)
-    (h : setInput var s p v = .ok t) :
+    (hn : var.neutralized = false) (h : setInput var s p v = .ok t) :
     v.length = var.count ∧ var.defUnit ≠ .eternity ∧
     ∃ subs, walk var.defUnit p = .ok subs ∧ divideOn var.kind s subs (castVec var.kind v) = .ok t := by
   unfold setInput at h
+  simp only [hn, Bool.false_eq_true, if_false] at h
   split at h
   · cases h
   · rw [hr] at h
@@ -984,10 +985,11 @@ theorem setInput_divide_inv {var : VarSpec} {s t : Store} {p : Period} {v : Vec}
           exact ⟨by simpa using hl, he, subs, rfl, h⟩
 
 theorem setInput_dispatch_inv {var : VarSpec} {s t : Store} {p : Period} {v : Vec} (hr : var.rule = .dispatch)
-    (h : setInput var s p v = .ok t) :
+    (hn : var.neutralized = false) (h : setInput var s p v = .ok t) :
     v.length = var.count ∧ var.defUnit ≠ .eternity ∧
     ∃ subs, walk var.defUnit p = .ok subs ∧ t = dispatchOn s subs (castVec var.kind v) := by
   unfold setInput at h
+  simp only [hn, Bool.false_eq_true, if_false] at h
   split at h
   · cases h
   · rw [hr] at h
@@ -1005,7 +1007,7 @@ theorem setInput_dispatch_inv {var : VarSpec} {s t : Store} {p : Period} {v : Ve
 
 theorem setInput_of_walk {var : VarSpec} {s : Store} {p : Period} {v : Vec} {subs : List Period}
     (hl : v.length = var.count) (he : var.defUnit ≠ .eternity) (hp : p.unit ≠ .eternity)
-    (hw : walk var.defUnit p = .ok subs) :
+    (hn : var.neutralized = false) (hw : walk var.defUnit p = .ok subs) :
     setInput var s p v =
       match var.rule with
       | .dispatch => .ok (dispatchOn s subs (castVec var.kind v))
@@ -1013,6 +1015,7 @@ theorem setInput_of_walk {var : VarSpec} {s : Store} {p : Period} {v : Vec} {sub
       | .absent => holderSet var s p v := by
   unfold setInput
   rw [if_neg (fun h => hp h.1)]
+  simp only [hn, Bool.false_eq_true, if_false]
   cases var.rule <;>
     simp [dispatchByPeriod, divideByPeriod, toArray, hl, he, hw, bind, Except.bind]
 
